@@ -15,6 +15,9 @@ regularization weights built from it (property C07).
 import Proofs.Regularization
 import Model.RegularizationSignals
 
+set_option linter.unusedSectionVars false
+set_option linter.unusedSimpArgs false
+
 namespace Model
 open Mat Spec
 
@@ -139,18 +142,15 @@ section accum
 
 variable [Field α] [LinearOrder α] [IsStrictOrderedRing α]
 
-omit [LinearOrder α] [IsStrictOrderedRing α] in
 theorem getD_take_lt (l : List Nat) (n i : Nat) (h : i < n) : (l.take n).getD i 0 = l.getD i 0 := by
   rw [List.getD_eq_getElem?_getD, List.getD_eq_getElem?_getD, List.getElem?_take_of_lt h]
 
-omit [LinearOrder α] [IsStrictOrderedRing α] in
 theorem getD_map_lt (f : α → α) (l : List α) (i : Nat) (h : i < l.length) :
     (l.map f).getD i 0 = f (l.getD i 0) := by
   rw [List.getD_eq_getElem?_getD, List.getD_eq_getElem?_getD, List.getElem?_map,
     List.getElem?_eq_getElem h]
   rfl
 
-omit [LinearOrder α] [IsStrictOrderedRing α] in
 theorem getD_set_add (arr : List α) (v p : Nat) (hv : v < arr.length) (x : α) :
     (arr.set v (arr.getD v 0 + x)).getD p 0 = arr.getD p 0 + if v = p then x else 0 := by
   by_cases h : v = p
@@ -248,7 +248,6 @@ theorem pixelSignalAccum_spec (pixels : Nat) (pixelWeights : List (List α))
       exact ⟨rfl, rfl⟩
   exact gen pixIndexes.length (Nat.le_refl _)
 
-omit [LinearOrder α] [IsStrictOrderedRing α] in
 theorem getD_zipWith_div (a b : List α) (p : Nat) (h1 : p < a.length) (h2 : p < b.length) :
     (List.zipWith (fun s n => s / n) a b).getD p 0 = a.getD p 0 / b.getD p 0 := by
   simp [List.getD_eq_getElem?_getD, List.getElem?_zipWith, List.getElem?_eq_getElem h1,
@@ -283,7 +282,6 @@ section order
 
 variable [Field α] [LinearOrder α] [IsStrictOrderedRing α]
 
-omit [Field α] [IsStrictOrderedRing α] in
 theorem foldl_max_spec (rest : List α) (a : α) :
     a ≤ rest.foldl (fun m v => if m < v then v else m) a
     ∧ (∀ v ∈ rest, v ≤ rest.foldl (fun m v => if m < v then v else m) a)
